@@ -98,6 +98,15 @@ fn ser_t<T: Dyn + Serialize + serde_json_ser::Ser>(v: &DV) -> Option<(DV, String
     let t = T::from_dv(v)?;
     let canonical = t.to_dv();
     let r = std::panic::catch_unwind(std::panic::AssertUnwindSafe(|| {
+        // every other serialisation runs after an invocation that was abandoned through the API two or three containers
+        // deep (a closure error leaves them open): what is serialised must not depend on that history
+        static TURN: std::sync::atomic::AtomicUsize = std::sync::atomic::AtomicUsize::new(0);
+        let turn = TURN.fetch_add(1, std::sync::atomic::Ordering::Relaxed);
+        if turn % 2 == 1 {
+            shopify_function_provider::initialize_from_msgpack_bytes(vec![0xc0]);
+            let mut c = Context;
+            let _ = c.write_array(|c| c.write_object(|c| { c.write_utf8_str("k")?; c.write_array(|c| { c.write_i32(1)?; c.write_i32(2) }, 1) }, 2), 3);
+        }
         shopify_function_provider::initialize_from_msgpack_bytes(vec![0xc0]);
         let mut ctx = Context;
         let st = match t.serialize(&mut ctx) { Ok(()) => 0usize, Err(_) => 1 };
@@ -135,7 +144,7 @@ macro_rules! ro { ($t:ty) => { Entry { ty: <$t as Dyn>::ty(), ser: None, de: de_
 pub fn family() -> Vec<Entry> {
     vec![rw!(()), rw!(bool), rw!(i32), rw!(f64), rw!(String), rw!(Option<i32>), rw!(Vec<i32>), rw!(Vec<String>), rw!(HashMap<String, i32>),
          rw!(Vec<Option<HashMap<String, Vec<i32>>>>), rw!(HashMap<String, Vec<Option<f64>>>), rw!(Option<Vec<bool>>), rw!(Vec<Vec<()>>),
-         rw!(HashMap<String, HashMap<String, String>>), rw!(Option<()>), rw!(Option<Option<i32>>), rw!(Vec<Option<()>>),
+         rw!(HashMap<String, HashMap<String, String>>), rw!(Vec<Vec<Vec<i32>>>), rw!(Vec<Vec<HashMap<String, i32>>>), rw!(HashMap<String, Vec<Vec<String>>>), rw!(Option<()>), rw!(Option<Option<i32>>), rw!(Vec<Option<()>>),
          ro!((i32, String)), ro!((bool, f64, Vec<i32>)), ro!([i32; 3]), ro!([Option<String>; 2]), ro!(u8), ro!(i64), ro!(Vec<u16>), ro!(HashMap<String, (i32, i32)>), ro!(i8), ro!(u64), ro!([(); 0])]
 }
 
@@ -167,7 +176,7 @@ pub fn run(a: &Args, out: &mut Out) {
         if e.ser.is_none() { continue; }
         out.case(&format!("CASE {} {}", id, usize::BITS));
         for k in 0..per {
-            let v0 = gen(&mut rng, &e.ty, if k < 3 { 0 } else { 3 });
+            let v0 = gen(&mut rng, &e.ty, if k < 3 { 0 } else { 4 });
             // the value in the HashMap's actual iteration order (what Serialize will follow)
             let (canon, o) = match (e.ser.unwrap())(&v0) { Some(x) => x, None => continue };
             let line = format!("SER {} {}", e.ty, dv_txt(&canon, false));
